@@ -325,6 +325,28 @@ fn agree(r: Option<Artifact>, payload: &[u8], noutputs: u32) -> bool {
   ok
 }
 
+/// Native replay of an E2 counterexample: VREPLAY_INTS="n_outputs i0 i1 ..." builds the
+/// transaction (OP_RETURN OP_13 <LEB128 of the integers>), runs the real decipher and
+/// compares it with the reference exactly like the solver query did.
+#[cfg(all(test, vreplay))]
+#[test]
+fn vreplay_decipher() {
+  let spec = std::env::var("VREPLAY_INTS").unwrap_or_default();
+  let mut it = spec.split_whitespace();
+  let noutputs: u32 = it.next().map(|x| x.parse().unwrap()).unwrap_or(2);
+  let mut payload = Vec::new();
+  for tok in it {
+    varint::encode_to_vec(tok.parse::<u128>().unwrap(), &mut payload);
+  }
+  assert!(payload.len() <= 75);
+  let mut script = vec![0x6a, 0x5d, payload.len() as u8];
+  script.extend_from_slice(&payload);
+  let tx = tx_with_script(&script, noutputs as usize - 1);
+  let r = Runestone::decipher(&tx);
+  println!("decipher -> {:?}", r);
+  assert!(agree(r, &payload, noutputs), "real decipher disagrees with the specification reference");
+}
+
 #[cfg(kani)]
 mod proofs {
   use super::*;
